@@ -411,18 +411,24 @@ func runProperty(c *Ctx, p *property, known []knownFinding) (res *result) {
 		r.Run(c)
 		n := len(c.obs) - before
 		res.Rules[r.ID] = n
-		res.Floors[r.ID] = r.Floor
+		// The floor guards against a rule that silently matches nothing.  The table holds the instance
+		// count confirmed by hand on the tree the rule was written on; half of it is demanded, because
+		// a refactoring that merges duplicated code (two mirrored branches into one, seven inline
+		// path computations into one helper) legitimately lowers the count, while a vanished
+		// mechanism takes it to zero.
+		floor := (r.Floor + 1) / 2
+		res.Floors[r.ID] = floor
 		lost := false
 		for _, o := range c.obs[before:] {
 			if o.Verdict == "undecided" {
 				lost = true
 			}
 		}
-		if n < r.Floor && !lost {
+		if n < floor && !lost {
 			// The mechanism the property is anchored in is no longer there (or no longer
 			// recognisable): the necessary condition cannot be shown, report it.
 			c.obs = append(c.obs, Obligation{Rule: r.ID, Construct: "floor", Pos: "-", Verdict: "violation",
-				Detail: fmt.Sprintf("rule matched %d instance(s), expected at least %d: an anchored mechanism is missing or no longer recognisable (%s)", n, r.Floor, r.Doc)})
+				Detail: fmt.Sprintf("rule matched %d instance(s), expected at least %d: an anchored mechanism is missing or no longer recognisable (%s)", n, floor, r.Doc)})
 		}
 	}
 	// apply the known-findings list: exact rule+construct matches only
